@@ -1,0 +1,81 @@
+//go:build verif
+
+package verifexport
+
+import (
+	"github.com/aml-org/amf-custom-validator/internal/parser"
+	"github.com/aml-org/amf-custom-validator/internal/parser/path"
+	"github.com/aml-org/amf-custom-validator/internal/parser/profile"
+	"github.com/aml-org/amf-custom-validator/internal/validator"
+)
+
+// PathNode is a JSON-friendly projection of a parsed property path.
+type PathNode struct {
+	Kind       string     `json:"kind"` // "prop" | "and" | "or" | "null"
+	Iri        string     `json:"iri,omitempty"`
+	Inverse    bool       `json:"inverse,omitempty"`
+	Transitive bool       `json:"transitive,omitempty"`
+	Body       []PathNode `json:"body,omitempty"`
+}
+
+func projectPath(p path.PropertyPath) PathNode {
+	switch v := p.(type) {
+	case path.Property:
+		return PathNode{Kind: "prop", Iri: v.Iri, Inverse: v.Inverse, Transitive: v.Transitive}
+	case path.AndPath:
+		n := PathNode{Kind: "and"}
+		for _, b := range v.And {
+			n.Body = append(n.Body, projectPath(b))
+		}
+		return n
+	case path.OrPath:
+		n := PathNode{Kind: "or"}
+		for _, b := range v.Or {
+			n.Body = append(n.Body, projectPath(b))
+		}
+		return n
+	default:
+		return PathNode{Kind: "null"}
+	}
+}
+
+// ParsePath runs the internal property-path parser.
+func ParsePath(s string) (PathNode, error) {
+	p, err := path.ParsePath(s)
+	if err != nil {
+		return PathNode{}, err
+	}
+	return projectPath(p), nil
+}
+
+// GenerateRego parses the profile and returns the generated Rego module text.
+func GenerateRego(profileText string) (string, error) {
+	unit, err := validator.GenerateRego(profileText, false, nil)
+	if err != nil {
+		return "", err
+	}
+	return unit.Code, nil
+}
+
+// ParseProfile parses the profile and returns its logical rendering.
+func ParseProfile(profileText string) (string, error) {
+	p, err := parser.Parse(profileText)
+	if err != nil {
+		return "", err
+	}
+	return p.String(), nil
+}
+
+// ProcessInput decodes, normalises and indexes a JSON-LD text.
+func ProcessInput(jsonldText string) (any, error) {
+	return validator.ProcessInput(jsonldText, false, nil)
+}
+
+// Encode is the JSON encoder used for reports and normalised input.
+func Encode(v any) string { return validator.Encode(v) }
+
+// GenReset resets the global identifier counter (fresh-process conditions).
+func GenReset() { profile.GenReset() }
+
+// SetGenvarHook installs an observer for the global identifier counter.
+func SetGenvarHook(h func(hint string, value int)) { profile.GenvarHook = h }
